@@ -69,7 +69,23 @@ let handle kind fs obs =
     let fpart = (match finds v atoms rstart rend (fresh ()) with
       | Ok (f, s) -> Printf.sprintf "%d:%s" (if f then 1 else 0) (saves s)
       | _ -> raise Model_fault) in
-    Printf.sprintf "m=%s end=%s finds=%s X=%s" (String.concat "/" (List.rev !recs)) (string_of_n !st.m_end) fpart xpart
+    (* X: the positions of the sweep windows (clipped to the range, as the harness clips them) at which the MODEL's exec
+       succeeds - recomputed, never copied from the observation *)
+    let xmodel =
+      if bang then "-" else begin
+        let wins = List.map (fun w -> match String.split_on_char ':' w with [a; b] -> (Z.of_string a, Z.of_string b) | _ -> failwith "win") (split_on ';' (field fs "wins")) in
+        let rs = z_of_n rstart and re = z_of_n rend in
+        let tbl = Hashtbl.create 1024 in
+        List.iter (fun (lo, hi) ->
+          let lo = Z.max lo rs in
+          let hi = Z.min (Z.min hi re) (Z.add lo (Z.of_int 0x4000)) in
+          let c = ref lo in
+          while Z.lt !c hi do Hashtbl.replace tbl (Z.to_int !c) (); c := Z.succ !c done) wins;
+        let pos = List.sort compare (Hashtbl.fold (fun k () acc -> k :: acc) tbl []) in
+        let hits = List.filter (fun c -> match view_exec v atoms (n_of_int c) (fresh ()) with Ok (true, _) -> true | Ok (false, _) -> false | _ -> raise Model_fault) pos in
+        if hits = [] then "-" else String.concat "," (List.map string_of_int hits)
+      end in
+    Printf.sprintf "m=%s end=%s finds=%s X=%s" (String.concat "/" (List.rev !recs)) (string_of_n !st.m_end) fpart xmodel
   with Model_fault -> "!model-fault") in
   (* ---- oracle on the implementation's observation ---- *)
   let ok = (not bang) && (try
